@@ -42,6 +42,16 @@ theorem checkRecordsFrom_iff [DecidableEq α] (cap : Nat) (l : Log α) (i : Nat)
   unfold checkRecordsFrom RecordsFromOk expected
   by_cases h : first cap l ≤ i ∧ i < l.next <;> simp [h]
 
+/-- an answer is a value: whatever is recorded afterwards, the answer a caller holds for index `i` still is
+    the records from `i` to what was the newest when it asked -/
+def HeldOk (answer laterLook : List α) : Prop := laterLook = answer
+
+def checkHeld [DecidableEq α] (answer laterLook : List α) : Bool := decide (laterLook = answer)
+
+theorem checkHeld_iff [DecidableEq α] (answer laterLook : List α) :
+    checkHeld answer laterLook = true ↔ HeldOk answer laterLook := by
+  simp [checkHeld, HeldOk]
+
 /-- the flush interval the property speaks of -/
 def flushInterval : Nat := 100
 
@@ -73,6 +83,16 @@ def checkConverged {ρ : Type} [DecidableEq ρ] (sent : List Nat) (follower lead
 theorem checkConverged_iff {ρ : Type} [DecidableEq ρ] (sent : List Nat) (follower leader : View ρ) :
     checkConverged sent follower leader = true ↔ Converged sent follower leader := by
   simp [checkConverged, Converged]
+
+/-- the messages a live follower is sent for a sequence of changes: every change once, in order, each region
+    paired with its own leader (`(region id, leader peer id)` per position, flattened over the messages) -/
+def BroadcastOk (changes sent : List (Nat × Nat)) : Prop := sent = changes
+
+def checkBroadcast (changes sent : List (Nat × Nat)) : Bool := decide (sent = changes)
+
+theorem checkBroadcast_iff (changes sent : List (Nat × Nat)) :
+    checkBroadcast changes sent = true ↔ BroadcastOk changes sent := by
+  simp [checkBroadcast, BroadcastOk]
 
 /-- the ids on which the two views differ (for the report) -/
 def diverged {ρ : Type} [DecidableEq ρ] (sent : List Nat) (follower leader : View ρ) : List Nat :=
